@@ -78,6 +78,10 @@ def run(ctx):
         ctx.guard(c08.keep_only, ctx, lambda: c10.combine(ctx, cfg, fs), lambda o: True, 'T.combine')
         ctx.guard(c08.keep_only, ctx, lambda: c10.usage_fallback(ctx, cfg, ctx.look(fs.one(r'^info::OptionParser::<T>::run_subparser$')), 'U.usage-fallback'), lambda o: True, 'U.usage-fallback')
         ctx.guard(c08.keep_only, ctx, lambda: c18.who(ctx, cfg, fs), lambda o: o.key.startswith(('params::', '<params::')) and 'std::env::' in o.key, 'E.env-absence')
+        # "absent" for a flag means: not on the line AND none of its declared variables set (shared with C18)
+        ctx.guard(c08.keep_only, ctx, lambda: c18.flag(ctx, cfg, fs), lambda o: True, 'E.env-absence')
+        # which failed attempt of an adjacent group is reported: the one that got furthest, measured on its own window (shared with C10)
+        ctx.guard(c08.keep_only, ctx, lambda: c10.best_effort(ctx, cfg, fs), lambda o: 'consumed-measured' in o.key or 'ties-keep' in o.key, 'T.combine')
         ctx.guard(k5, ctx, cfg, fs)
         ctx.guard(retry_looks_at_failure, ctx, cfg, fs)
         import consumers
